@@ -36,11 +36,11 @@ def main():
         for _ in range(k):
             pos = src.index(old, pos + 1)
         open(p, "w").write(src[:pos] + new + src[pos+len(old):])
-        b = subprocess.run(["go", "build", "./..."], cwd=dst, env=env, stdout=subprocess.PIPE, stderr=subprocess.STDOUT, text=True)
+        b = subprocess.run(["go", "build", "./..."], cwd=dst, env=env, stdout=subprocess.PIPE, stderr=subprocess.STDOUT, text=True, errors="replace")
         if b.returncode != 0:
             print("mutate: mutant does not build\n" + b.stdout[-2000:]); return 2
         if not skip:
-            t = subprocess.run(["go", "test", "-vet=off", "-count=1", "./..."], cwd=dst, env=env, stdout=subprocess.PIPE, stderr=subprocess.STDOUT, text=True)
+            t = subprocess.run(["go", "test", "-vet=off", "-count=1", "./..."], cwd=dst, env=env, stdout=subprocess.PIPE, stderr=subprocess.STDOUT, text=True, errors="replace")
             rec["suite_green"] = t.returncode == 0
             if t.returncode != 0:
                 print("mutate: NOTE: the repository's own suite fails on this mutant:\n" + "\n".join(l for l in t.stdout.splitlines() if "FAIL" in l)[:1500])
@@ -48,7 +48,7 @@ def main():
         rec["results"] = {}
         for pid in ids.split(","):
             t0 = time.time()
-            r = subprocess.run(["/verif/check", pid, tier], cwd="/verif", env=env2, stdout=subprocess.PIPE, stderr=subprocess.STDOUT, text=True)
+            r = subprocess.run(["/verif/check", pid, tier], cwd="/verif", env=env2, stdout=subprocess.PIPE, stderr=subprocess.STDOUT, text=True, errors="replace")
             lines = [l for l in r.stdout.splitlines() if l.startswith(("VIOLATION", "KNOWN-FINDING", "check:"))]
             print("\n".join(lines[:12]))
             print("mutate: %s %s -> exit %d (%.1fs) %s" % (pid, tier, r.returncode, time.time()-t0, "CAUGHT" if r.returncode == 1 else "MISSED" if r.returncode == 0 else "INCONCLUSIVE"))
